@@ -415,6 +415,15 @@ def work(item):
             _w_represent(res, p)
         elif kind == "represent-ground":
             _w_represent_ground(res, p)
+        elif kind == "scale-typed":
+            res.d["ground_instances"] += 1
+            res.d["instances"] -= 1
+            res.ob(1)
+            bad = scale_typed_bad(p["ws"], p["total"])
+            if bad:
+                res.candidate("scale-typed", f"{p['label']}: {bad}", dict(p, clause="scale-typed", values={}), sub="scale-typed")
+            else:
+                res.ob(0, 1, "ground-numeric")
         elif kind == "expand-big":
             res.d["ground_instances"] += 1
             res.d["instances"] -= 1
@@ -440,6 +449,27 @@ def expand_big_bad(n, m):
     c, nn, mm = expand_sample_sizes(["c"], [n], m)
     if sum(nn) != n or len(c) != mm[0]:
         return "expand_sample_sizes loses shots"
+    return None
+
+
+def scale_typed_bad(ws, total):
+    """ground: scale_and_discretize on weights of one Python kind (ints, floats, mixed, big ints), list or tuple"""
+    from fractions import Fraction
+    from orquestra.quantum.utils import scale_and_discretize
+
+    for arg in (list(ws), tuple(ws)):
+        snap = list(arg)
+        out = scale_and_discretize(arg, total)
+        if list(arg) != snap or any(type(a) is not type(b) for a, b in zip(arg, snap)):
+            return f"argument changed: {snap} -> {list(arg)}"
+        if not isinstance(out, list) or len(out) != len(ws) or not all(isinstance(x, int) and not isinstance(x, bool) for x in out):
+            return f"result {out!r} is not a list of {len(ws)} ints"
+        if sum(out) != total:
+            return f"{out} sums to {sum(out)}, not {total}"
+        S = sum(Fraction(w) for w in ws)
+        for x, w in zip(out, ws):
+            if abs(x - Fraction(w) * total / S) >= 1:
+                return f"{ws} total {total} -> {out}: entry {x} is not within one of its share {float(Fraction(w) * total / S):.6g}"
     return None
 
 
@@ -488,6 +518,9 @@ def instances(tier, seed):
     items = []
     for k, total in ([(1, 3), (2, 1), (2, 3), (3, 2), (3, 4)] if tier == "quick" else [(1, 3), (2, 1), (2, 3), (2, 5), (3, 2), (3, 4), (3, 6), (4, 3)]):
         items.append(("scale", {"k": k, "total": total, "label": f"scale {k} weights total {total}"}))
+    for ws in ([3, 1, 2], [1, 1, 1], [5], [2, 2], [7, 1, 1, 1], [0.5, 0.25, 0.25], [0.1, 0.2, 0.3, 0.4], [1, 0.5, 2.5], [10**18, 1, 10**18], [3, 3, 3, 1], [1e-9, 1.0, 2.0], [1, 2, 3, 4, 5, 6, 7]):
+        for total in (1, 2, 7, 10, 100, 1001):
+            items.append(("scale-typed", {"ws": ws, "total": total, "label": f"scale_and_discretize({ws}, {total})"}))
     reps = [([[0], [1]], 1), ([[0], [1]], 2), ([[0], [1]], 3), ([[0, 0], [0, 1], [1, 1]], 1), ([[0, 0], [0, 1], [1, 1]], 2)]
     for n, m in [(2**60 + 1, 2**59), (2**64 + 3, 2**63), (7, 7), (8, 7), (1, 10**18), (3 * 10**18 + 1, 10**18)]:
         items.append(("expand-big", {"n": n, "m": m, "label": f"expand n={n} m={m}"}))
@@ -588,6 +621,9 @@ def replay(data):
             return bool(bad), bad or "ok"
         if clause == "represent-ground":
             bad = represent_ground_bad(GROUND_DISTS[p["dist"]], p["N"], p["seed"])
+            return bool(bad), bad or "ok"
+        if clause == "scale-typed":
+            bad = scale_typed_bad(p["ws"], p["total"])
             return bool(bad), bad or "ok"
         if "k" in p:
             from orquestra.quantum.utils import scale_and_discretize
